@@ -21,7 +21,7 @@
      3. known_findings.d/C05.jsonl: status "finding" -> "fixed".                                              *)
 From Coq Require Import String Ascii.
 From Coq Require Import List Bool ZArith NArith Arith Lia.
-From Tally Require Import Gen.C05Amount C05.Model C05.Amount C05.Proofs C05.AmountProofs.
+From Tally Require Import Gen.C05Amount C05.Model C05.Amount C05.Proofs C05.AmountProofs C05.Csv C05.CsvProofs.
 Import ListNotations.
 Open Scope N_scope.
 
@@ -198,6 +198,39 @@ Theorem c05_sign_mode_table :
 Proof. intros a. repeat split; reflexivity. Qed.
 Print Assumptions c05_sign_mode_table.
 
+(* ================================================================================ the CSV record reader *)
+(* C05/Csv.v models what _iter_rows_with_delimiter does with a comma / one-character / tab delimited file:
+   text mode (universal newlines), csv.reader's state machine for the excel dialect, the header dropped as one
+   RECORD.  Every table written the way a csv writer writes (a cell is quoted, with doubled quotes, whenever it
+   contains the delimiter, a quote or a line break; any cell may be quoted; a row that is one empty cell quotes it)
+   is read back as exactly one row per record with exactly the cells written, whatever the cells contain. *)
+Theorem c05_csv_roundtrip :
+  forall (d : N) (rows : list (list wcell)),
+    delim_ok d = true -> forallb (wrow_ok d) rows = true ->
+    csv_records d (render_file d rows) = Some (map (map content) rows).
+Proof. intros d rows Hd. exact (csv_roundtrip d Hd rows). Qed.
+Print Assumptions c05_csv_roundtrip.
+
+(* from the TEXT of the file to the transactions: the header record is dropped (also when its cells contain line
+   breaks), and the transactions are those of the table's rows, one by one, in order *)
+Theorem c05_text_rows :
+  forall (strptime : bs -> bs -> option bs) v sp delimiter d (hdr rows : list (list wcell)),
+    reader_of delimiter = RCsv d -> delim_ok d = true -> spec_wfb sp = true ->
+    forallb (wrow_ok d) (hdr ++ rows) = true ->
+    length hdr = (if has_header sp then 1 else 0)%nat ->
+    parse_text strptime v sp delimiter (render_file d (hdr ++ rows))
+    = Some (Rows (flat_map (accepted strptime v sp) (map (fun r => map (fun w => Some (content w)) r) rows))).
+Proof. exact text_rows. Qed.
+Print Assumptions c05_text_rows.
+
+(* which reader a delimiter setting selects *)
+Theorem c05_delimiter_settings :
+  (reader_of None = RCsv 44) /\ (reader_of (Some []) = RCsv 44) /\ (reader_of (Some s_tab) = RCsv 9) /\
+  (forall c, c <? 128 = true -> reader_of (Some [c]) = RCsv c) /\
+  (forall p, reader_of (Some (s_regex ++ p)) = RRegex p).
+Proof. exact reader_of_table. Qed.
+Print Assumptions c05_delimiter_settings.
+
 (* ================================================================================ non-vacuity *)
 Definition ex_spec : spec :=
   {| date_col := 0; date_fmt := bytes "%m/%d/%Y"; amount_col := 3;
@@ -250,3 +283,19 @@ Proof.
   - unfold well_written. cbn. repeat split; try (repeat constructor); try (left; reflexivity); discriminate.
   - vm_compute. repeat split; reflexivity.
 Qed.
+
+(* the hypotheses of c05_csv_roundtrip / c05_text_rows are satisfiable: a ';'-delimited file whose header cell ends
+   in a line break, with cells containing the delimiter, quotes and a line break *)
+Definition qc (s : string) : wcell := {| quoted := true; content := bytes s |}.
+Definition rc (s : string) : wcell := {| quoted := false; content := bytes s |}.
+Definition nl : string := String (Ascii.ascii_of_N 10) EmptyString.
+Example c05_example_csv :
+  let hdr := [[rc "Date"; qc "Description"; qc (append "Amount" nl)]] in
+  let rows := [[rc "2024-01-02"; qc "He said ""hi""; x"; rc "4,50"]; []; [qc ""];
+               [rc "2024-01-03"; qc (append "two" (append nl "lines")); rc ""]] in
+  forallb (wrow_ok 59) (hdr ++ rows) = true
+  /\ csv_records 59 (render_file 59 (hdr ++ rows))
+     = Some [[bytes "Date"; bytes "Description"; bytes (append "Amount" nl)];
+             [bytes "2024-01-02"; bytes "He said ""hi""; x"; bytes "4,50"]; []; [[]];
+             [bytes "2024-01-03"; bytes (append "two" (append nl "lines")); []]].
+Proof. vm_compute. split; reflexivity. Qed.
